@@ -300,10 +300,10 @@ func (h *Handler) AuthenticatePrepared(pw []byte) (fileKey []byte, isOwner bool,
 // alg2 computes the file encryption key from a padded password.
 func (h *Handler) alg2(padded []byte) []byte {
 	d := md5.New()
-	d.Write(padded)                                                        // (a), (b)
-	d.Write(h.O)                                                           // (c)
+	d.Write(padded)                                                              // (a), (b)
+	d.Write(h.O)                                                                 // (c)
 	d.Write([]byte{byte(h.P), byte(h.P >> 8), byte(h.P >> 16), byte(h.P >> 24)}) // (d)
-	d.Write(h.ID0)                                                         // (e)
+	d.Write(h.ID0)                                                               // (e)
 	if h.R >= 4 && !h.EncryptMetadata {
 		d.Write([]byte{0xff, 0xff, 0xff, 0xff}) // (f)
 	}
